@@ -128,7 +128,7 @@ def run_case(case, sb):
                 problems.append({"method": method, "yielded_expected": exp, "observed": out["yielded"]})
         if method in ("collect_by_line", "next_by_line"):
             byline_yield[method] = out["yielded"]
-            got = [ln[0] for ln in out["yielded"]]
+            got = [(ln[0] if ln else None) for ln in out["yielded"]]
             if dups:
                 continue   # with identical rows the id-based union is not well defined; see the relation below
             if not case["if_all_agree"]:
